@@ -34,6 +34,9 @@ pub struct ClockState {
     pub mono_step: u64,
     /// if set: the mono clock jumps by this much at read number `.0`
     pub mono_jump_at: Option<(u64, u64)>,
+    /// watchdog: panic (caught and attributed by the check) when the system reads the
+    /// monotonic clock more often than this — a loop that never stops polling the deadline
+    pub mono_read_cap: Option<u64>,
 }
 
 #[derive(Debug, Default)]
@@ -72,6 +75,7 @@ impl World {
                 backs: 0,
                 mono_step: 1_000,
                 mono_jump_at: None,
+                mono_read_cap: None,
             }),
             sysrng: Mutex::new(Rng::new(seed, "sysrng")),
             pages: Mutex::new(PageMonitor::default()),
@@ -208,6 +212,13 @@ impl SimHooks for World {
     fn instant_nanos(&self) -> Option<u64> {
         let mut c = self.clock.lock().unwrap();
         c.mono_reads += 1;
+        if let Some(cap) = c.mono_read_cap
+            && c.mono_reads > cap
+        {
+            c.mono_read_cap = None;
+            drop(c);
+            panic!("sim clock read cap exceeded");
+        }
         let step = c.mono_step;
         c.mono += step;
         if let Some((at, jump)) = c.mono_jump_at
